@@ -1,3 +1,5 @@
 //! Device personalities: reference models of the device side of each driver, transcribed from
 //! the VirtIO 1.2 text (DESIGN appendix A). Each is also the oracle for its request format.
 pub mod blk;
+pub mod events;
+pub mod console;
